@@ -195,6 +195,15 @@ fn parse_ids(s: &str) -> Option<Vec<ResourceId>> {
     parse_list(s).into_iter().map(parse_id).collect()
 }
 
+/// a matcher for `remove_resource_id<T: PartialEq<ResourceId>>` that is equal to every id of a list
+struct AnyOf(Vec<String>);
+
+impl PartialEq<ResourceId> for AnyOf {
+    fn eq(&self, other: &ResourceId) -> bool {
+        self.0.iter().any(|v| *v == other.value)
+    }
+}
+
 type Rcb = Rc<Bundles<LogGen>>;
 type Answer = (Option<String>, Vec<LocalizationError>);
 
@@ -266,6 +275,11 @@ fn run(payload: &str) -> String {
             }),
             ["rm", r] => parse_id(r).map(|r| format!("len={}", loc.remove_resource_id(r))),
             ["rmm", rs] => parse_ids(rs).map(|rs| format!("len={}", loc.remove_resource_ids(rs))),
+            // the SINGLE removal entry point with a generic matcher that is equal to several ids at once
+            ["rmp", rs] => parse_ids(rs).map(|rs| {
+                let m = AnyOf(rs.into_iter().map(|r| r.value).collect());
+                format!("len={}", loc.remove_resource_id(m))
+            }),
             ["loc", ls] => parse_locales(ls).map(|ls| {
                 let mut v = prov.0.borrow_mut();
                 v.clear();
